@@ -43,7 +43,7 @@ impl Op {
         match self {
             Op::Reg(_, p, _) | Op::Dereg(_, p, _) => {
                 // the registry key is get_path() of the request
-                let mut r: CoapRequest<u8> = CoapRequest::new();
+                let mut r: CoapRequest<Ep> = CoapRequest::new();
                 r.set_path(p);
                 Some(r.get_path())
             }
@@ -51,6 +51,18 @@ impl Op {
             Op::RegRaw(_, segs, _) | Op::DeregRaw(_, segs, _) => Some(raw_request(0, segs, &[]).get_path()),
             _ => None,
         }
+    }
+}
+
+/// The endpoint type of the registry under test. Its `Display` shows only the low four bits, so
+/// endpoints 1 and 17 print alike while `==` tells them apart: the registry must match endpoints by
+/// equality, never by their printed form.
+#[derive(Clone, Debug, PartialEq)]
+pub struct Ep(pub u8);
+
+impl std::fmt::Display for Ep {
+    fn fmt(&self, f: &mut std::fmt::Formatter<'_>) -> std::fmt::Result {
+        write!(f, "ep{}", self.0 & 0x0f)
     }
 }
 
@@ -62,25 +74,25 @@ fn segtok(segs: &[Vec<u8>]) -> String {
     }
 }
 
-fn request(ep: u8, path: &str, tok: &[u8], mid: u16) -> CoapRequest<u8> {
+fn request(ep: u8, path: &str, tok: &[u8], mid: u16) -> CoapRequest<Ep> {
     let mut p = Packet::new();
     p.set_token(tok.to_vec());
     p.header.message_id = mid;
-    let mut r: CoapRequest<u8> = CoapRequest::from_packet(p, ep);
+    let mut r: CoapRequest<Ep> = CoapRequest::from_packet(p, Ep(ep));
     r.set_path(path);
     r
 }
 
-fn raw_request(ep: u8, segs: &[Vec<u8>], tok: &[u8]) -> CoapRequest<u8> {
+fn raw_request(ep: u8, segs: &[Vec<u8>], tok: &[u8]) -> CoapRequest<Ep> {
     let mut p = Packet::new();
     p.set_token(tok.to_vec());
     for s in segs {
         p.add_option(coap_lite::CoapOption::UriPath, s.clone());
     }
-    CoapRequest::from_packet(p, ep)
+    CoapRequest::from_packet(p, Ep(ep))
 }
 
-fn apply(s: &mut Subject<u8>, op: &Op) {
+fn apply(s: &mut Subject<Ep>, op: &Op) {
     match op {
         Op::AckP(e, m, p) => s.acknowledge(&request(*e, p, &[], *m)),
         Op::RegRaw(e, segs, t) => s.register(&raw_request(*e, segs, t)),
@@ -94,14 +106,14 @@ fn apply(s: &mut Subject<u8>, op: &Op) {
     }
 }
 
-fn dump(s: &Subject<u8>, limit: u8, paths: &BTreeSet<String>, with_seq: bool) -> String {
+fn dump(s: &Subject<Ep>, limit: u8, paths: &BTreeSet<String>, with_seq: bool) -> String {
     let mut out = format!("L{}", limit);
     for p in paths {
         out.push(' ');
         out.push_str(&hex(p.as_bytes()));
         // the two read accessors agree (same observers, same order)
-        let via_list: Option<Vec<(u8, Vec<u8>)>> = s.get_resource_observers(p).map(|l| l.iter().map(|o| (o.endpoint, o.token.clone())).collect());
-        let via_res: Option<Vec<(u8, Vec<u8>)>> = s.get_resource(p).map(|r| r.observers.iter().map(|o| (o.endpoint, o.token.clone())).collect());
+        let via_list: Option<Vec<(u8, Vec<u8>)>> = s.get_resource_observers(p).map(|l| l.iter().map(|o| (o.endpoint.0, o.token.clone())).collect());
+        let via_res: Option<Vec<(u8, Vec<u8>)>> = s.get_resource(p).map(|r| r.observers.iter().map(|o| (o.endpoint.0, o.token.clone())).collect());
         if via_list != via_res {
             out.push_str("{ACCESSORS-DISAGREE}");
         }
@@ -119,7 +131,7 @@ fn dump(s: &Subject<u8>, limit: u8, paths: &BTreeSet<String>, with_seq: bool) ->
                     .map(|o| {
                         format!(
                             "{}:{}:{}:{}",
-                            o.endpoint,
+                            o.endpoint.0,
                             hex(&o.token),
                             o.verif_unacked(),
                             o.verif_pending_mid().map(|m| m.to_string()).unwrap_or("n".into())
@@ -265,7 +277,7 @@ fn all_paths(ops: &[Op], extra: &[String]) -> BTreeSet<String> {
 /// run a whole history; returns (dump-with-seq after each op) or None on panic
 fn run_real(ops: &[Op], paths: &BTreeSet<String>) -> Option<Vec<String>> {
     guarded(|| {
-        let mut s: Subject<u8> = Subject::default();
+        let mut s: Subject<Ep> = Subject::default();
         let mut outs = vec![];
         for (i, o) in ops.iter().enumerate() {
             apply(&mut s, o);
@@ -401,7 +413,8 @@ pub fn run(cx: &mut Ctx) {
 
     // ---- 1. breadth-first exploration of the small alphabet: every transition out of every
     //         distinct state reachable within the depth bound
-    let eps = [1u8, 2];
+    // the two endpoints print alike (`ep1`) and are different: matching must be by equality
+    let eps = [1u8, 17];
     let toks: [Vec<u8>; 2] = [vec![0xa], vec![0xb]];
     let paths = ["p".to_string(), "q".to_string()];
     let mids = [10u16, 11];
@@ -445,7 +458,7 @@ pub fn run(cx: &mut Ctx) {
             transitions += 1;
             // dedup key: state without absolute sequence numbers
             let key = guarded(|| {
-                let mut s: Subject<u8> = Subject::default();
+                let mut s: Subject<Ep> = Subject::default();
                 for o in &ops {
                     apply(&mut s, o);
                 }
@@ -471,7 +484,7 @@ pub fn run(cx: &mut Ctx) {
             ops.push(Op::Limit(*rng.pick(&[0u8, 1, 2, 3, 10, 254, 255])));
         }
         for _ in 0..200 {
-            let e = rng.below(8) as u8;
+            let e = rng.below(8) as u8 + if rng.chance(1, 4) { 16 } else { 0 };
             let p = rng.pick(&bigpaths).to_string();
             let tl = rng.below(9) as usize;
             let t = if rng.chance(1, 2) { vec![e] } else { rng.bytes(tl) };
@@ -586,7 +599,7 @@ pub fn run(cx: &mut Ctx) {
         // no hook: 2^32 + 2 real notification rounds on an observed resource
         let line = "OBS soak 4294967298".to_string();
         let r = guarded(|| {
-            let mut s: Subject<u8> = Subject::default();
+            let mut s: Subject<Ep> = Subject::default();
             s.register(&request(1, "p", &[1], 0));
             for i in 0..(1u64 << 32) + 2 {
                 s.resource_changed("p", i as u16, false);
